@@ -57,7 +57,15 @@ SProbe(f)         == [op |-> "probe", f |-> f, r |-> FALSE]   \* custom spec: ob
 SRProbe           == [op |-> "probe", f |-> "id", r |-> TRUE] \* ... whose __repr__ is a yield point too: rendering the error
                                                              \* trace (str(exc)) of a failed call is then a step of the interleaving
 SOpcall(f)        == [op |-> "opcall", f |-> f]       \* the op callable of a Fold: yields, returns f(item)
-SNest(call)       == [op |-> "nest", call |-> call]   \* custom spec whose glomit calls glom() re-entrantly
+SNest(call)       == [op |-> "nest", call |-> call, log |-> FALSE]   \* custom spec whose glomit calls glom() re-entrantly
+SNestLog(call)    == [op |-> "nest", call |-> call, log |-> TRUE]    \* ... and, when the inner call fails, renders the error
+                                                                    \* (str(e), e.g. logging) before re-raising it: no effect on any outcome
+SCheck(eq, f)     == [op |-> "check", eq |-> eq, f |-> f]   \* Check(equal_to=eq, validate=V): the target itself, or CheckError
+                                                          \* listing every failed condition; V (a user callable, f = "vtrue" / "vfalse") always runs
+STPlus(v)         == [op |-> "tplus", v |-> v]          \* T + [..]: a new list (v: a list value), the operand is not touched
+SRefDef(name, c)  == [op |-> "refdef", name |-> name, c |-> c]   \* Ref(name, c): names c for the evaluation of c (and of later chain steps)
+SRefUse(name)     == [op |-> "refuse", name |-> name]   \* Ref(name): the spec named name; KeyError when nothing in scope defines it
+RefKey(name)      == IF name = "n" THEN "ref:n" ELSE "ref:m"
 STuple(c)         == [op |-> "tuple", c |-> c]        \* (s1, s2, ..)
 SDict(items)      == [op |-> "dict", items |-> items, sp |-> "dict"]   \* {'k': s, ..}; items: sequence of <<key string, spec>>
 SInvDict(items)   == [op |-> "dict", items |-> items, sp |-> "invoke"] \* Invoke(kwfn).specs(k1=s1).specs(k2=s2)..: the same dict, built
@@ -91,7 +99,7 @@ HasR(n) ==
     [] n.op \in {"tuple", "arglist"} -> \E i \in 1..Len(n.c) : HasR(n.c[i])
     [] n.op = "coal" -> (\E i \in 1..Len(n.c) : HasR(n.c[i])) \/ (n.d.s # <<>> /\ HasR(n.d.s[1]))
     [] n.op = "dict" -> \E i \in 1..Len(n.items) : HasR(n.items[i][2])
-    [] n.op \in {"each", "fill", "bind", "invoke"} -> HasR(n.c)
+    [] n.op \in {"each", "fill", "bind", "invoke", "refdef"} -> HasR(n.c)
     [] OTHER -> FALSE
 
 \* ---- errors, outcomes, observations ---------------------------------------------------
@@ -146,6 +154,8 @@ ApplyF(f, t) ==
   CASE f = "id"   -> Ok(t)
     [] f = "inc"  -> IF t.k = "int" THEN Ok(VInt(t.i + 1)) ELSE Exc("TypeError")
     [] f = "boom" -> Exc("ValueError")
+    [] f = "vtrue"  -> Ok(VInt(1))
+    [] f = "vfalse" -> Ok(VInt(0))
     [] OTHER      -> Exc("UNMODELLED")
 
 \* registrations the environment may make on the default registry
@@ -240,6 +250,21 @@ WalkKids(steps, j, kids, regs, at, acc) ==
        ELSE WalkKids(steps, j, Tail(kids), regs, at, acc)
 
 Sub(at, k) == Append(at, k)
+AllScalar(sq) == \A i \in 1..Len(sq) : sq[i].k \in {"int", "str", "none"}
+RECURSIVE Dedupe(_, _)
+Dedupe(sq, acc) == IF sq = <<>> THEN acc
+                   ELSE Dedupe(Tail(sq), IF \E i \in 1..Len(acc) : VEq(acc[i], Head(sq)) THEN acc ELSE Append(acc, Head(sq)))
+\* the node at a position of a spec (law side; the mechanism has the same table as NodeAt)
+RECURSIVE NodeAtL(_, _)
+NodeAtL(n, path) ==
+  IF path = <<>> THEN n
+  ELSE LET k == Head(path)  rest == Tail(path) IN
+    CASE n.op \in {"tuple", "arglist"}     -> NodeAtL(n.c[k], rest)
+      [] n.op = "coal"                     -> NodeAtL(IF k <= Len(n.c) THEN n.c[k] ELSE n.d.s[1], rest)
+      [] n.op = "dict"                     -> NodeAtL(n.items[k][2], rest)
+      [] n.op \in {"each", "fill", "bind", "invoke", "refdef"} -> NodeAtL(n.c, rest)
+      [] n.op = "acc"                      -> IF n.kind = "group" THEN SProbe(n.f) ELSE SOpcall(n.f)
+      [] n.op = "check"                    -> SOpcall(n.f)
 IsStrDict(v) == v.k = "dict" /\ \A i \in 1..Len(v.v) : v.v[i][1].k = "str"
 
 Ev(n, at, t, env) ==
@@ -276,7 +301,9 @@ Ev(n, at, t, env) ==
          ELSE LET h == Resolve(env.regs, TypeOf(t), "iterate") IN
               IF h = "NONE" THEN Bad(Err("UnregisteredTarget", TRUE, at, <<>>), <<>>)
               ELSE IF h = "iterstr" THEN Bad(Unmodelled(at), <<>>)
-              ELSE EvMap(n.c, Sub(at, 1), IterItems(h, t), 1, env, <<>>, <<>>)
+              ELSE LET r == EvMap(n.c, Sub(at, 1), IterItems(h, t), 1, [env EXCEPT !.uniq = (n.sp = "uniq")], <<>>, <<>>) IN
+                   IF n.sp # "uniq" \/ ~r.ok THEN r                   \* Iter(c).unique().all(): first occurrences only
+                   ELSE Good(VList(Dedupe(r.v.v, <<>>)), r.obs)
     [] n.op = "coal" -> EvCoal(n, 1, at, t, env, <<>>)
     [] n.op = "acc" ->
          LET h == Resolve(env.regs, TypeOf(t), "iterate") IN
@@ -287,6 +314,20 @@ Ev(n, at, t, env) ==
     [] n.op = "bind" -> LET r == Ev(n.c, Sub(at, 1), t, env) IN
                         IF r.ok THEN Res(TRUE, t, NoErr, r.obs, <<n.name, r.v>>) ELSE r
     [] n.op = "read" -> IF HasKey(env.vis, n.name) THEN Good(Lookup(env.vis, n.name), <<>>) ELSE Bad(PAE(at), <<>>)
+    [] n.op = "check" ->
+         LET r == Ev(SOpcall(n.f), Sub(at, 1), t, [env EXCEPT !.acc = <<>>]) IN
+         IF ~r.ok THEN r
+         ELSE IF VEq(t, n.eq) /\ r.v = VInt(1) THEN Good(t, r.obs)
+         ELSE Bad(Err("CheckError", TRUE, at, <<>>), r.obs)
+    [] n.op = "tplus" -> IF t.k = "list" THEN Good(VList(t.v \o n.v.v), <<>>) ELSE Bad(PAE(at), <<>>)
+    [] n.op = "refdef" ->
+         LET cat == Sub(at, 1)  bnd == [k |-> "refb", at |-> cat]
+             r == Ev(n.c, cat, t, [env EXCEPT !.vis = SetKey(@, RefKey(n.name), bnd)]) IN
+         IF r.ok THEN Res(TRUE, r.v, NoErr, r.obs, <<RefKey(n.name), bnd>>) ELSE [r EXCEPT !.b = <<>>]
+    [] n.op = "refuse" ->
+         IF ~HasKey(env.vis, RefKey(n.name)) THEN Bad(Err("KeyError", FALSE, at, <<>>), <<>>)
+         ELSE LET bnd == Lookup(env.vis, RefKey(n.name))
+                  r == Ev(NodeAtL(env.root, bnd.at), bnd.at, t, env) IN [r EXCEPT !.b = <<>>]
     [] n.op = "lastvar" ->
          IF env.mode # "AUTO" THEN Bad(Unmodelled(at), <<>>)
          ELSE LET h == Resolve(env.regs, TypeOf(t), "iterate") IN
@@ -318,8 +359,10 @@ EvAll(c, i, at, t, env, acc, obs) ==
 \* one child over every item
 EvMap(c, cat, items, i, env, acc, obs) ==
   IF i > Len(items) THEN Good(VList(acc), obs)
-  ELSE LET r == Ev(c, cat, items[i], env) IN
-       IF ~r.ok THEN Bad(r.e, obs \o r.obs) ELSE EvMap(c, cat, items, i + 1, env, Append(acc, r.v), obs \o r.obs)
+  ELSE LET r == Ev(c, cat, items[i], [env EXCEPT !.uniq = FALSE]) IN
+       IF ~r.ok THEN Bad(r.e, obs \o r.obs)
+       ELSE IF env.uniq /\ ~AllScalar(<<r.v>>) THEN Bad(Unmodelled(cat), obs \o r.obs)   \* (lazy: keyed as it is produced)
+       ELSE EvMap(c, cat, items, i + 1, env, Append(acc, r.v), obs \o r.obs)
 \* Coalesce: first alternative that does not fail with a GlomError; else default; else error
 EvCoal(n, i, at, t, env, obs) ==
   IF i > Len(n.c) THEN
@@ -343,7 +386,7 @@ Outcome(ok, v, e, obs) == [ok |-> ok, v |-> v, e |-> e, obs |-> obs]
 EvCall(call, st, regs, d) ==
   \* regs: the module-level registrations; the call sees them unless it goes through the Glommer
   LET r == Ev(call.spec, <<>>, call.t, [star |-> st, regs |-> RegsFor(call.via, regs), mregs |-> regs, mode |-> "AUTO",
-                                        vis |-> call.sc, d |-> d, acc |-> <<>>, rt |-> call.t]) IN
+                                        vis |-> call.sc, d |-> d, acc |-> <<>>, rt |-> call.t, root |-> call.spec, uniq |-> FALSE]) IN
   Outcome(r.ok, r.v, IF r.ok THEN NoErr ELSE [r.e EXCEPT !.ge = TRUE], r.obs)
 Iso(call, st, regs) == EvCall(call, st, regs, 0)
 
@@ -391,8 +434,9 @@ NodeAt(n, path) ==
     CASE n.op \in {"tuple", "arglist"}     -> NodeAt(n.c[k], rest)
       [] n.op = "coal"                     -> NodeAt(IF k <= Len(n.c) THEN n.c[k] ELSE n.d.s[1], rest)
       [] n.op = "dict"                     -> NodeAt(n.items[k][2], rest)
-      [] n.op \in {"each", "fill", "bind", "invoke"} -> NodeAt(n.c, rest)
+      [] n.op \in {"each", "fill", "bind", "invoke", "refdef"} -> NodeAt(n.c, rest)
       [] n.op = "acc"                      -> IF n.kind = "group" THEN SProbe(n.f) ELSE SOpcall(n.f)
+      [] n.op = "check"                    -> SOpcall(n.f)
 NodeOf(P, f) == IF f.op = "call" THEN [op |-> "call", call |-> P.calls[f.lvl]]
                 ELSE NodeAt(P.calls[f.lvl].spec, f.at)
 Child(P, f, cn, k, t, vis, av) == Push(SetTop(P, f), Frame(cn.op, f.lvl, Sub(f.at, k), t, f.mode, vis, av, f.sid))
@@ -486,9 +530,12 @@ MEach(P, G, f, n) ==
          ELSE IF f.h = "iterstr" THEN X(Raise(P, Unmodelled(f.at)), G)
          ELSE X(Eval(P, [f EXCEPT !.ph = 2, !.items = IterItems(f.h, f.t)]), G)
     [] P.ctl = "eval" ->
-         IF f.i = Len(f.items) THEN X(Ret(P, VList(f.acc)), G)
-         ELSE X(Child(P, f, n.c, 1, f.items[f.i + 1], f.vis, <<>>), G)
-    [] P.ctl = "ret" -> X(Eval(P, [f EXCEPT !.i = @ + 1, !.acc = Append(@, P.v)]), G)
+         IF f.i < Len(f.items) THEN X(Child(P, f, n.c, 1, f.items[f.i + 1], f.vis, <<>>), G)
+         ELSE IF n.sp # "uniq" THEN X(Ret(P, VList(f.acc)), G)
+         ELSE X(Ret(P, VList(Dedupe(f.acc, <<>>))), G)        \* the seen-set lives in this evaluation only
+    [] P.ctl = "ret" ->
+         IF n.sp = "uniq" /\ ~AllScalar(<<P.v>>) THEN X(Raise(P, Unmodelled(Sub(f.at, 1))), G)
+         ELSE X(Eval(P, [f EXCEPT !.i = @ + 1, !.acc = Append(@, P.v)]), G)
     [] OTHER -> X(Raise(P, P.e), G)
 
 MCoal(P, G, f, n) ==
@@ -544,6 +591,28 @@ MInvoke(P, G, f, n) ==
   CASE f.ph = 0 -> X(Child(P, [f EXCEPT !.ph = 1], n.c, 1, f.t, f.vis, <<>>), G)
     [] P.ctl = "ret" ->        \* all_kwargs = {}; all_kwargs.update(<star kwargs>); all_kwargs.update(constants); func(**all_kwargs)
          X(IF IsStrDict(P.v) THEN Ret(P, VDict(SetKey(P.v.v, VStr(n.k), n.v))) ELSE Raise(P, Unmodelled(f.at)), G)
+    [] OTHER -> X(Raise(P, P.e), G)
+
+MCheck(P, G, f, n) ==      \* errs is a local list of this evaluation
+  CASE f.ph = 0 -> X(Child(P, [f EXCEPT !.ph = 1], SOpcall(n.f), 1, f.t, f.vis, <<>>), G)
+    [] P.ctl = "ret" -> X(IF VEq(f.t, n.eq) /\ P.v = VInt(1) THEN Ret(P, f.t) ELSE Raise(P, Err("CheckError", TRUE, f.at, <<>>)), G)
+    [] OTHER -> X(Raise(P, P.e), G)
+
+MTPlus(P, G, f, n) == X(IF f.t.k = "list" THEN Ret(P, VList(f.t.v \o n.v.v)) ELSE Raise(P, PAE(f.at)), G)
+
+MRefDef(P, G, f, n) ==       \* scope[(Ref, name)] = subspec in this frame; then the subspec is evaluated under it
+  LET cat == Sub(f.at, 1)  bnd == [k |-> "refb", at |-> cat] IN
+  CASE f.ph = 0 -> X(Child(P, [f EXCEPT !.ph = 1], n.c, 1, f.t, SetKey(f.vis, RefKey(n.name), bnd), <<>>), G)
+    [] P.ctl = "ret" -> X(RetB(P, P.v, <<RefKey(n.name), bnd>>), G)
+    [] OTHER -> X(Raise(P, P.e), G)
+
+MRefUse(P, G, f, n) ==       \* subspec = scope[(Ref, name)]: the frame chain of THIS call only
+  CASE f.ph = 0 ->
+         IF ~HasKey(f.vis, RefKey(n.name)) THEN X(Raise(P, Err("KeyError", FALSE, f.at, <<>>)), G)
+         ELSE LET bnd == Lookup(f.vis, RefKey(n.name))
+                  cn == NodeAt(P.calls[f.lvl].spec, bnd.at) IN
+              X(Push(SetTop(P, [f EXCEPT !.ph = 1]), Frame(cn.op, f.lvl, bnd.at, f.t, f.mode, f.vis, <<>>, f.sid)), G)
+    [] P.ctl = "ret" -> X(Ret(P, P.v), G)
     [] OTHER -> X(Raise(P, P.e), G)
 
 MLast(P, G, f, n) ==      \* the Vars object lives in the frames of this evaluation only
@@ -613,6 +682,10 @@ Micro(P, G) ==
     [] op = "read"  -> MRead(P, G, f, n)
     [] op = "arglist" -> MArgList(P, G, f, n)
     [] op = "lastvar" -> MLast(P, G, f, n)
+    [] op = "tplus" -> MTPlus(P, G, f, n)
+    [] op = "check" -> MCheck(P, G, f, n)
+    [] op = "refdef" -> MRefDef(P, G, f, n)
+    [] op = "refuse" -> MRefUse(P, G, f, n)
     [] op = "invoke" -> MInvoke(P, G, f, n)
     [] op = "path"  -> MPath(P, G, f, n)
     [] OTHER        -> X(Raise(P, Unmodelled(f.at)), G)
